@@ -531,7 +531,7 @@ Section Off.
     unfold add_post_citation. psimp. unfold span_of. psimp.
     set (w := window_fwd MAXC words (S i) [] false).
     destruct (search PPostFull w) as [m|] eqn:Es.
-    2:{ cbv zeta. split; [apply inv_blank; exact Hwf|]. unfold shape. psimp. auto. }
+    2:{ cbv zeta. split; [apply inv_blank; exact Hwf|]. unfold shape. psimp. repeat split; reflexivity. }
     destruct (fwd_match _ _ _ _ _ Hn Es) as (n & Hw & Hle & Hme & Hok).
     fold w in Hw, Hok.
     destruct (Hsearch _ _ _ Es) as (_ & _ & _ & Hpin0 & _). specialize (Hpin0 eq_refl).
@@ -552,7 +552,8 @@ Section Off.
     { unfold fe, tlen, ze. destruct rawpar as [r|] eqn:Er; [|lia].
       destruct par as [p0|]; [|lia].
       destruct (mget_span _ _ _ _ Hok Er) as (a & b & _ & _ & Ha & Hab & Hb & _ & Hlen).
-      destruct (negb _ && _); unfold zlen; lia. }
+      destruct (negb _ && _) eqn:Ec; unfold zlen in *; [|lia].
+      apply andb_true_iff in Ec. destruct Ec as [_ Ec]. apply Z.ltb_lt in Ec. lia. }
     clearbody fe.
     assert (Hpc : truthy_o pc = true ->
                   exists b, pc = Some (slice text (t_end t) (t_end t + b)) /\ (b <= n)%nat /\ olen pc = Z.of_nat b).
@@ -579,7 +580,7 @@ Section Off.
       apply infix_refl. }
     destruct (truthy_o (mget m w g_court)); destruct (truthy_o (mget m w g_year));
       destruct (truthy_o pc) eqn:Et.
-    all: (split; [|unfold shape; psimp; auto]).
+    all: (split; [|unfold shape; psimp; repeat split; reflexivity]).
     all: inv_fields; unfold tlen, zs, ze in *.
     all: (split; [repeat split; assumption|]).
     all: (split; [discriminate|]).
@@ -590,4 +591,438 @@ Section Off.
     all: (split; [first [discriminate | intros x [= <-]; destruct (Hpc eq_refl) as (b & _ & Hbn & ->); lia]|]).
     all: intros p0 Hp0 _; destruct (Hpin _ Hp0) as [Ht Hi]; first [discriminate Ht | exact Hi].
   Qed.
+
+  (* ---------- add_defendant ---------- *)
+  Lemma rev_firstn_cons k x rest : (k <= length words)%nat ->
+    rev (firstn k words) = x :: rest ->
+    exists idx, k = S idx /\ nth_error words idx = Some x /\ rest = rev (firstn idx words).
+  Proof.
+    intros Hk Hr. destruct k as [|idx]; [discriminate Hr|].
+    destruct (nth_error words idx) as [y|] eqn:Ey.
+    2:{ apply nth_error_None in Ey. lia. }
+    rewrite (firstn_S_nth _ _ _ Ey), rev_app_distr in Hr. cbn [rev app] in Hr.
+    injection Hr as -> <-. exists idx. auto.
+  Qed.
+
+  Lemma def_scan_ok i : (i <= length words)%nat ->
+    forall ws k mm offset si off pl,
+      ws = firstn mm (rev (firstn k words)) -> (k <= i)%nat ->
+      offset = Z.of_nat (pos words i) - Z.of_nat (pos words k) ->
+      def_scan words ws (Nat.pred k) offset = Ok (Some (si, off, pl)) ->
+      0 <= off <= Z.of_nat (pos words i).
+  Proof.
+    intros Hi. induction ws as [|e r IH]; intros k mm offset si off pl Hws Hk Hoff Hd.
+    - cbn [def_scan] in Hd. discriminate Hd.
+    - destruct mm as [|mm']; [discriminate Hws|].
+      destruct (rev (firstn k words)) as [|x rest] eqn:Er; [discriminate Hws|].
+      cbn [firstn] in Hws. injection Hws as -> ->.
+      assert (Hkl : (k <= length words)%nat) by lia.
+      destruct (rev_firstn_cons _ _ _ Hkl Er) as (idx & -> & Hx & ->).
+      cbn [Nat.pred] in Hd.
+      pose proof (pos_S _ _ _ Hx) as HpS.
+      pose proof (pos_mono words idx i ltac:(lia)) as Hm1.
+      pose proof (pos_mono words (S idx) i ltac:(lia)) as Hm0.
+      pose proof (pos_mono words (idx - 2) idx ltac:(lia)) as Hm2.
+      assert (Hrec : forall si off pl,
+                def_scan words (firstn mm' (rev (firstn idx words))) (Nat.pred idx)
+                         (offset + zlen (elem_str x)) = Ok (Some (si, off, pl)) ->
+                0 <= off <= Z.of_nat (pos words i)).
+      { intros si' off' pl' H'. eapply (IH idx mm'); [reflexivity|lia| |exact H'].
+        unfold zlen. lia. }
+      cbn [def_scan] in Hd.
+      destruct x as [s|t].
+      + destruct s as [|c [|c' s']].
+        * destruct (ends_with SEMI []); [discriminate Hd|]. eapply Hrec; exact Hd.
+        * destruct (N.eqb c COMMA); [eapply Hrec; exact Hd|].
+          destruct (N.eqb c SEMI); [discriminate Hd|]. eapply Hrec; exact Hd.
+        * destruct (ends_with SEMI (c :: c' :: s')); [discriminate Hd|]. eapply Hrec; exact Hd.
+      + destruct (kind_eqb (t_kind t) KStopWord).
+        * destruct (glookup g_stop_word (t_groups t)) as [v|]; [|discriminate Hd].
+          destruct (ostr_eqb v (Some s_v) && (0 <? idx)%nat).
+          -- injection Hd as _ <- _.
+             change (join_elems (slice words (idx - 2) idx))
+               with (stream_text (slice words (idx - 2) idx)).
+             pose proof (lstrip_length (in_chars [LPAR; SP]) (stream_text (slice words (idx - 2) idx))) as Hl.
+             rewrite (stream_slice _ _ _ _ Hstream) in Hl at 2 by lia.
+             rewrite slice_length in Hl; [|lia|apply (pos_le_text _ _ _ Hstream)].
+             cbn [elem_str] in *. unfold zlen in *. lia.
+          -- injection Hd as _ <- _. cbn [elem_str] in *. unfold zlen in *. lia.
+        * destruct (ends_with SEMI (t_data t)); [discriminate Hd|]. eapply Hrec; exact Hd.
+  Qed.
+
+  Lemma defendant_ok i t c c' :
+    nth_error words i = Some (T t) -> shape t i c ->
+    add_defendant search BACK D highest is_space c words = Ok c' ->
+    shape t i c' /\ p_full_end c' = p_full_end c /\ p_pin_start c' = p_pin_start c /\
+    p_pin_end c' = p_pin_end c /\ p_pin c' = p_pin c /\
+    (p_full_start c' = p_full_start c \/
+     exists off, 0 <= off <= zs t /\ p_full_start c' = Some (zs t - off)).
+  Proof.
+    intros Hn (S1 & S2 & S3 & S4 & S5) Hd.
+    destruct (pos_token _ _ _ _ Hstream Hn) as (Hp0 & _ & _).
+    unfold add_defendant in Hd. rewrite S2 in Hd.
+    destruct (def_scan words (firstn (BACK - 1) (rev (firstn i words))) (Nat.pred i) 0)
+      as [[[[si off] pl]|]|] eqn:Eds; cbn [bind] in Hd; [| |discriminate Hd].
+    2:{ injection Hd as <-. unfold shape. auto 10. }
+    assert (Hoff : 0 <= off <= zs t).
+    { unfold zs. rewrite <- Hp0.
+      eapply (def_scan_ok i (Nat.lt_le_incl _ _ (index_lt _ _ Hn)) _ i (BACK - 1)%nat 0);
+        [reflexivity|lia|lia|exact Eds]. }
+    assert (Hss : fst (span_of c) = zs t).
+    { unfold span_of. rewrite S4, S1. reflexivity. }
+    rewrite Hss in Hd.
+    assert (Hgoal : forall c2,
+              p_tok c2 = t /\ p_index c2 = i /\ p_cls c2 = CFullCase /\ p_span_start c2 = None /\
+              p_span_end c2 = None /\ p_full_end c2 = p_full_end c /\ p_pin_start c2 = p_pin_start c /\
+              p_pin_end c2 = p_pin_end c /\ p_pin c2 = p_pin c /\ p_full_start c2 = Some (zs t - off) ->
+              c2 = c' ->
+              shape t i c' /\ p_full_end c' = p_full_end c /\ p_pin_start c' = p_pin_start c /\
+              p_pin_end c' = p_pin_end c /\ p_pin c' = p_pin c /\
+              (p_full_start c' = p_full_start c \/
+               exists off, 0 <= off <= zs t /\ p_full_start c' = Some (zs t - off))).
+    { intros c2 (G1 & G2 & G3 & G4 & G5 & G6 & G7 & G8 & G9 & G10) <-.
+      unfold shape. repeat split; try assumption. right. exists off. auto. }
+    destruct pl as [pl|].
+    - destruct (nonempty _); [destruct (search PDefYear _)|];
+        injection Hd as Hd; refine (Hgoal _ _ Hd); psimp;
+        repeat split; first [assumption | reflexivity].
+    - destruct (nonempty _); [destruct (search PDefYear _)|];
+        injection Hd as Hd; refine (Hgoal _ _ Hd); psimp;
+        repeat split; first [assumption | reflexivity].
+  Qed.
+
+  (* ---------- add_pre_citation ---------- *)
+  Lemma pre_shape t i c : shape t i c -> shape t i (add_pre_citation search MAXC c words).
+  Proof.
+    intros (S1 & S2 & S3 & S4 & S5). unfold add_pre_citation, shape.
+    destruct (truthy_o (p_plaintiff c) || truthy_o (p_defendant c)); [auto 10|].
+    destruct (search PPreFull _); [|auto 10].
+    destruct (truthy_o _); psimp; auto 10.
+  Qed.
+
+  Lemma pre_ok i t c :
+    nth_error words i = Some (T t) -> shape t i c -> inv text c ->
+    inv text (add_pre_citation search MAXC c words).
+  Proof.
+    intros Hn (S1 & S2 & S3 & S4 & S5) Hinv.
+    unfold add_pre_citation.
+    destruct (truthy_o (p_plaintiff c) || truthy_o (p_defendant c)); [exact Hinv|].
+    rewrite S2. set (w := window_bwd MAXC words i true).
+    destruct (search PPreFull w) as [m|] eqn:Es; [|exact Hinv].
+    destruct (pos_token _ _ _ _ Hstream Hn) as (Hpos0 & _ & _).
+    destruct (window_bwd_suffix MAXC text words i true Hstream
+                (Nat.lt_le_incl _ _ (index_lt _ _ Hn))) as (n & Hnp & Hw).
+    fold w in Hw. rewrite Hpos0 in *.
+    destruct (Hsearch _ _ _ Es) as (Hok & _ & Hend & _). specialize (Hend eq_refl).
+    assert (Hwl : length w = n).
+    { rewrite Hw, slice_length; [lia|lia|]. destruct (tok_wf _ _ Hn) as (? & ? & ?). lia. }
+    rewrite Hwl in Hend.
+    assert (Hss : fst (span_of c) = zs t) by (unfold span_of; rewrite S4, S1; reflexivity).
+    rewrite Hss.
+    pose proof Hok as (Hse & _ & _).
+    set (pc := mget m w g_pin_cite).
+    unfold inv, span_with_pincite, span_of, omin, omax in Hinv.
+    rewrite S1, S3, S4, S5 in Hinv. psimp_in Hinv.
+    destruct Hinv as (I1 & I2 & I3 & I4 & I5 & I6 & I7 & I8).
+    pose proof I1 as (W1 & W2 & W3).
+    set (pe := match p_pin_end c with Some x => Z.max x (ze t) | None => ze t end).
+    assert (Hpe : ze t <= pe <= tlen text).
+    { unfold pe, tlen, ze in *. destruct (p_pin_end c) as [x|]; [specialize (I7 x eq_refl)|]; lia. }
+    assert (Hpin : forall p0, clean_pin_or_none pc = Some p0 ->
+              truthy_o pc = true /\
+              infix p0 (pyslice text (Z.min (zs t - (Z.of_nat (m_end m) - Z.of_nat (m_start m))) (zs t)) pe)).
+    { intros p0 Hp0. destruct (clean_pin_or_none_some _ _ Hp0) as (s0 & Hs0 & -> & Ht).
+      split; [exact Ht|].
+      destruct (mget_span _ _ _ _ Hok Hs0) as (a & b & _ & Hsl & Ha & Hab & Hb & _ & _).
+      unfold tlen, zs, ze in *.
+      rewrite pyslice_in by lia.
+      eapply infix_trans; [apply strip_infix|].
+      rewrite Hsl, Hw, slice_slice by lia.
+      apply infix_slice_widen with (a := (t_start t - n + a)%nat) (b := (t_start t - n + b)%nat);
+        try lia.
+      apply infix_refl. }
+    clearbody pc.
+    destruct (truthy_o pc) eqn:Et.
+    - unfold inv, span_with_pincite, span_of, omin, omax. psimp. rewrite S1, S3, S4, S5.
+      fold pe. unfold tlen, zs, ze in *.
+      split; [exact I1|]. split; [discriminate|]. split; [discriminate|].
+      split; [intros x [= <-]; lia|].
+      split; [exact I5|].
+      split; [intros x [= <-]; lia|].
+      split; [exact I7|].
+      intros p0 Hp0 _. apply (Hpin _ Hp0).
+    - unfold inv, span_with_pincite, span_of, omin, omax. psimp. rewrite S1, S3, S4, S5.
+      unfold tlen, zs, ze in *.
+      split; [exact I1|]. split; [discriminate|]. split; [discriminate|].
+      split; [intros x [= <-]; lia|].
+      split; [exact I5|].
+      split; [exact I6|].
+      split; [exact I7|].
+      intros p0 Hp0 _. destruct (Hpin _ Hp0) as [Ht _]. discriminate Ht.
+  Qed.
+
+  (* ---------- law and journal citations ---------- *)
+  Lemma law_ok i t :
+    nth_error words i = Some (T t) ->
+    inv text (add_law_metadata search MAXC D highest (blank CFullLaw t i) words).
+  Proof.
+    intros Hn. pose proof (tok_wf _ _ Hn) as Hwf.
+    unfold add_law_metadata. psimp. unfold span_of. psimp.
+    set (w := window_fwd MAXC words (S i) [] true).
+    destruct (search PPostLaw w) as [m|] eqn:Es; [|apply inv_blank; exact Hwf].
+    destruct (fwd_match _ _ _ _ _ Hn Es) as (n & Hw & Hle & Hme & Hok).
+    destruct Hwf as (H1 & H2 & H3).
+    destruct (truthy_o (mget m w g_year)); inv_fields; unfold tlen, zs, ze in *.
+    all: (split; [repeat split; assumption|]).
+    all: (split; [discriminate|]).
+    all: (split; [discriminate|]).
+    all: (split; [discriminate|]).
+    all: (split; [intros x [= <-]; lia|]).
+    all: (split; [discriminate|]).
+    all: (split; [discriminate|]).
+    all: intros p0 _ Hk; discriminate Hk.
+  Qed.
+
+  Lemma journal_ok cl i t :
+    pin_kind cl = false -> nth_error words i = Some (T t) ->
+    inv text (add_journal_metadata search MAXC D highest (blank cl t i) words).
+  Proof.
+    intros Hcl Hn. pose proof (tok_wf _ _ Hn) as Hwf.
+    unfold add_journal_metadata. psimp. unfold span_of. psimp.
+    set (w := window_fwd MAXC words (S i) [] true).
+    destruct (search PPostJournal w) as [m|] eqn:Es; [|apply inv_blank; exact Hwf].
+    destruct (fwd_match _ _ _ _ _ Hn Es) as (n & Hw & Hle & Hme & Hok).
+    destruct Hwf as (H1 & H2 & H3).
+    destruct (truthy_o (mget m w g_year)); inv_fields; unfold tlen, zs, ze in *.
+    all: (split; [repeat split; assumption|]).
+    all: (split; [discriminate|]).
+    all: (split; [discriminate|]).
+    all: (split; [discriminate|]).
+    all: (split; [intros x [= <-]; lia|]).
+    all: (split; [discriminate|]).
+    all: (split; [discriminate|]).
+    all: intros p0 _ Hk; rewrite Hcl in Hk; discriminate Hk.
+  Qed.
+
+  Lemma with_guess_same c : same_off c (with_guess this_year edition_of c).
+  Proof. unfold same_off. psimp. repeat split; reflexivity. Qed.
+
+  Lemma full_class_cases t cl : full_class source_of t = Ok cl ->
+    cl = CFullCase \/ cl = CFullLaw \/ cl = CFullJournal.
+  Proof.
+    unfold full_class.
+    destruct (existsb (Nat.eqb 0) _); [intros [= <-]; auto|].
+    destruct (existsb (Nat.eqb 1) _); [intros [= <-]; auto|].
+    destruct (existsb (Nat.eqb 2) _); [intros [= <-]; auto|discriminate].
+  Qed.
+
+  (* ---------- _extract_full_citation ---------- *)
+  Lemma full_ok i t c :
+    nth_error words i = Some (T t) ->
+    extract_full search MAXC BACK D highest this_year edition_of source_of is_space words i t = Ok c ->
+    inv text c.
+  Proof.
+    intros Hn He. unfold extract_full in He.
+    destruct (full_class source_of t) as [cl|] eqn:Ec; [|discriminate He].
+    cbn [bind] in He.
+    destruct (full_class_cases _ _ Ec) as [->|[->| ->]].
+    - destruct (post_ok i t Hn) as (Hinv & Hsh & Hfs & Hps). cbv zeta in *.
+      set (c1 := add_post_citation search MAXC D highest is_space (blank CFullCase t i) words) in *.
+      destruct (add_defendant search BACK D highest is_space c1 words) as [c2|] eqn:Ed;
+        [|discriminate He].
+      cbn [bind] in He. injection He as <-.
+      destruct (defendant_ok _ _ _ _ Hn Hsh Ed) as (Hsh2 & D1 & D2 & D3 & D4 & D5).
+      apply (same_off_inv _ _ _ (with_guess_same _)).
+      apply (pre_ok i t); [exact Hn|exact Hsh2|].
+      destruct Hsh as (S1 & S2 & S3 & S4 & S5). destruct Hsh2 as (T1 & T2 & T3 & T4 & T5).
+      unfold inv, span_with_pincite, span_of in *.
+      rewrite T1, T3, T4, T5, D1, D2, D3, D4. rewrite S1, S3, S4, S5 in Hinv.
+      destruct Hinv as (I1 & I2 & I3 & I4 & I5 & I6 & I7 & I8).
+      split; [exact I1|]. split; [exact I2|]. split; [exact I3|].
+      split; [|split; [exact I5|split; [exact I6|split; [exact I7|exact I8]]]].
+      intros x Hx. destruct D5 as [D5|(off & Hoff & D5)]; rewrite D5 in Hx.
+      + rewrite Hfs in Hx. discriminate Hx.
+      + injection Hx as <-. lia.
+    - injection He as <-. apply (same_off_inv _ _ _ (with_guess_same _)). apply law_ok. exact Hn.
+    - injection He as <-. apply (same_off_inv _ _ _ (with_guess_same _)).
+      apply journal_ok; [reflexivity|exact Hn].
+  Qed.
+
+  (* ---------- reference citations ---------- *)
+  Lemma references_ok c :
+    refs_ok refsearch -> offsets_ok text c ->
+    Forall (offsets_ok text) (references refsearch valid_name text c).
+  Proof.
+    intros Hrefs Hoff. unfold references.
+    destruct (Z.leb_spec (zlen text) (snd (span_of c))) as [Hle|Hlt]; [constructor|].
+    destruct (p_cls c); try constructor.
+    match goal with |- context [match ?l with [] => [] | _ :: _ => _ end] =>
+      destruct l as [|nm names'] eqn:En; [constructor|] end.
+    unfold offsets_ok in Hoff. cbv zeta in Hoff.
+    destruct Hoff as (O1 & O2 & O3 & O4 & O5 & _).
+    set (se := snd (span_of c)) in *.
+    assert (Hse : 0 <= se <= tlen text) by (unfold tlen; lia).
+    unfold zlen, tlen in *.
+    set (se' := Z.to_nat se).
+    assert (Hrest : pyslice text se (Z.of_nat (length text)) = slice text se' (length text)).
+    { rewrite pyslice_in by lia. rewrite Nat2Z.id. reflexivity. }
+    rewrite Hrest.
+    set (rest := slice text se' (length text)).
+    assert (Hrl : length rest = (length text - se')%nat).
+    { unfold rest. apply slice_length; lia. }
+    apply Forall_forall. intros x Hin. apply in_map_iff in Hin.
+    destruct Hin as ([[a b] gd] & <- & Hin).
+    destruct (Hrefs _ _ _ _ _ Hin) as (Hab & Hb & _).
+    replace (Z.to_nat (se + Z.of_nat a)) with (se' + a)%nat by lia.
+    replace (Z.to_nat (se + Z.of_nat b)) with (se' + b)%nat by lia.
+    apply inv_offsets_ok. inv_fields. cbn [t_start t_end t_data]. unfold tlen, zs, ze.
+    cbn [t_start t_end t_data].
+    split.
+    { unfold cand_wf. cbn [t_start t_end t_data]. split; [lia|]. split; [lia|].
+      unfold rest. apply slice_slice. lia. }
+    split; [intros x [= <-]; reflexivity|].
+    split; [intros x [= <-]; lia|].
+    split; [intros x [= <-]; lia|].
+    split; [intros x [= <-]; lia|].
+    split; [discriminate|].
+    split; [discriminate|].
+    intros p0 _ Hk. discriminate Hk.
+  Qed.
+
+  (* ---------- the loop ---------- *)
+  Lemma parallel_same c pre : same_off c (parallel c pre).
+  Proof.
+    unfold parallel, same_off. destruct (oz_eqb _ _); psimp; repeat split; reflexivity.
+  Qed.
+
+  Hypothesis Htoks : toks_ok source_of words.
+  Hypothesis Hrefs : refs_ok refsearch.
+
+  Lemma cite_step_ok acc i t acc' :
+    nth_error words i = Some (T t) ->
+    Forall (offsets_ok text) acc ->
+    cite_step search refsearch MAXC BACK D highest this_year edition_of source_of valid_name is_space
+              text words acc (i, t) = Ok acc' ->
+    Forall (offsets_ok text) acc'.
+  Proof.
+    intros Hn Hacc Hs. unfold cite_step in Hs.
+    destruct (t_kind t) eqn:Ek.
+    - destruct (t_short t) eqn:Esh.
+      + destruct (extract_short _ _ _ _ _ _ _ _) as [c|] eqn:Ee; [|discriminate Hs].
+        cbn [bind] in Hs. injection Hs as <-. constructor; [|exact Hacc].
+        apply inv_offsets_ok. eapply short_ok; eauto.
+      + destruct (extract_full _ _ _ _ _ _ _ _ _ _ _ _) as [c0|] eqn:Ee; [|discriminate Hs].
+        cbn [bind] in Hs. injection Hs as <-.
+        pose proof (inv_offsets_ok _ _ (full_ok _ _ _ Hn Ee)) as H0.
+        match goal with |- Forall _ (?c :: _) => assert (Hc : offsets_ok text c) end.
+        { destruct acc as [|pre acc0]; [exact H0|].
+          destruct (is_full_case c0 && is_full_case pre); [|exact H0].
+          apply (same_off_offsets_ok _ _ _ (parallel_same _ _) H0). }
+        constructor; [exact Hc|]. apply Forall_app. split; [|exact Hacc].
+        apply Forall_rev. apply references_ok; [exact Hrefs|exact Hc].
+    - injection Hs as <-. constructor; [|exact Hacc].
+      apply inv_offsets_ok, inv_blank. eapply tok_wf; exact Hn.
+    - destruct (extract_supra _ _ _ _ _) as [c|] eqn:Ee; [|discriminate Hs].
+      cbn [bind] in Hs. injection Hs as <-. constructor; [|exact Hacc].
+      apply inv_offsets_ok. eapply supra_ok; eauto.
+    - destruct (extract_id _ _ _ _ _) as [c|] eqn:Ee; [|discriminate Hs].
+      cbn [bind] in Hs. injection Hs as <-. constructor; [|exact Hacc].
+      apply inv_offsets_ok. eapply id_ok; eauto.
+    - injection Hs as <-. exact Hacc.
+    - injection Hs as <-. exact Hacc.
+    - injection Hs as <-. exact Hacc.
+  Qed.
+
+  Lemma cite_run_ok its : forall acc acc',
+    (forall i t, In (i, t) its -> nth_error words i = Some (T t)) ->
+    Forall (offsets_ok text) acc ->
+    cite_run search refsearch MAXC BACK D highest this_year edition_of source_of valid_name is_space
+             text words acc its = Ok acc' ->
+    Forall (offsets_ok text) acc'.
+  Proof.
+    induction its as [|[i t] its IH]; intros acc acc' Hin Hacc Hr; cbn [cite_run] in Hr.
+    - injection Hr as <-. exact Hacc.
+    - destruct (cite_step _ _ _ _ _ _ _ _ _ _ _ _ _ acc (i, t)) as [acc1|] eqn:Es; [|discriminate Hr].
+      cbn [bind] in Hr. eapply IH; [|eapply cite_step_ok|exact Hr].
+      + intros i' t' H'. apply Hin. right. exact H'.
+      + apply Hin. left. reflexivity.
+      + exact Hacc.
+      + exact Es.
+  Qed.
 End Off.
+
+(* ---------- filtering ---------- *)
+Lemma filter_pcits_incl l c : In c (filter_pcits l) -> In c l.
+Proof.
+  unfold filter_pcits. intros H. apply in_flat_map in H. destruct H as (f & _ & Hf).
+  destruct (nth_error l (f_id f)) as [c'|] eqn:E; [|destruct Hf].
+  destruct Hf as [<-|[]]. eapply nth_error_In. exact E.
+Qed.
+
+Theorem get_citations_offsets :
+  forall search refsearch MAXC BACK D highest this_year edition_of source_of valid_name is_space
+         text words cits ra l,
+  text <> s_eyecite ->
+  stream_ok text words -> cits_ok words cits -> toks_ok source_of words ->
+  search_ok search -> refs_ok refsearch ->
+  (* the post-short-citation pattern matches the empty string, hence every window *)
+  forall post_short_total : (forall w, search PPostShort w <> None),
+  get_citations search refsearch MAXC BACK D highest this_year edition_of source_of valid_name is_space
+                text words cits ra = Ok l ->
+  Forall (offsets_ok text) l.
+Proof.
+  intros search refsearch MAXC BACK D highest this_year edition_of source_of valid_name is_space
+         text words cits ra l Hne Hstream Hcits Htoks Hsearch Hrefs Htotal Hg.
+  unfold get_citations in Hg.
+  destruct (str_eqb_spec text s_eyecite) as [E|_]; [contradiction|].
+  destruct (cite_run _ _ _ _ _ _ _ _ _ _ _ _ _ _ _) as [acc|] eqn:Er; [|discriminate Hg].
+  cbn [bind] in Hg. injection Hg as <-.
+  assert (Hacc : Forall (offsets_ok text) acc).
+  { eapply cite_run_ok; try eassumption. constructor. }
+  assert (Hf : Forall (offsets_ok text) (filter_pcits (rev acc))).
+  { apply Forall_forall. intros c Hc. apply filter_pcits_incl in Hc. apply in_rev in Hc.
+    revert c Hc. apply Forall_forall. exact Hacc. }
+  destruct ra; [|exact Hf].
+  unfold disambiguate. apply Forall_forall. intros c Hc. apply filter_In in Hc.
+  destruct Hc as [Hc _]. revert c Hc. apply Forall_forall. exact Hf.
+Qed.
+
+(* The premise post_short_total cannot be dropped: search_ok says nothing when a
+   search fails, and _extract_shortform_citation stores span_end = 0 when the
+   post-citation search returns None. *)
+Lemma post_short_total_needed :
+  exists search refsearch MAXC BACK D highest this_year edition_of source_of valid_name is_space
+         text words cits ra l,
+    text <> s_eyecite /\ stream_ok text words /\ cits_ok words cits /\ toks_ok source_of words /\
+    search_ok search /\ refs_ok refsearch /\
+    get_citations search refsearch MAXC BACK D highest this_year edition_of source_of valid_name is_space
+                  text words cits ra = Ok l /\
+    ~ Forall (offsets_ok text) l.
+Proof.
+  set (t := {| t_kind := KCitation; t_start := 1; t_end := 2; t_data := [98%N];
+               t_groups := [(g_page, Some [98%N])]; t_short := true; t_exact := []; t_var := [] |}).
+  exists (fun _ _ => None), (fun _ _ => []), 10%nat, 10%nat, {| d_nd := []; d_isdigit := [] |},
+         2100, 2026, (fun _ => None), (fun _ => 0%nat), (fun _ => true), (fun _ => false),
+         [97%N; 98%N], [W [97%N]; T t], [(1%nat, t)], false.
+  eexists.
+  split; [discriminate|].
+  assert (Hnth : forall k t', nth_error [W [97%N]; T t] k = Some (T t') -> k = 1%nat /\ t' = t).
+  { intros k t' Hk. destruct k as [|[|k]]; cbn in Hk.
+    - discriminate Hk.
+    - injection Hk as <-. auto.
+    - destruct k; discriminate Hk. }
+  split.
+  { split; [reflexivity|]. intros k t' Hk. destruct (Hnth _ _ Hk) as [-> ->].
+    split; [reflexivity|]. unfold cand_wf. cbn. repeat split; lia. }
+  split.
+  { intros i t' [H|[]]. injection H as <- <-. reflexivity. }
+  split.
+  { intros k t' Hk. destruct (Hnth _ _ Hk) as [-> ->]. unfold tok_ok. cbn [t_kind t].
+    split; [|discriminate]. intros _. exists [98%N]. split; [reflexivity|].
+    exists []. reflexivity. }
+  split; [intros p w m H; discriminate H|].
+  split; [intros names s a b gd []|].
+  split; [vm_compute; reflexivity|].
+  intros H. inversion H as [|? ? Hc _]. clear H.
+  unfold offsets_ok in Hc. cbn in Hc. lia.
+Qed.
